@@ -178,7 +178,7 @@ NewFrame(fname, argvals, caps, isDef, boundary) ==
                        THEN base + (CHOOSE i \in 1..np : fn.params[i] = x)
                        ELSE base + np + (CHOOSE i \in 1..nr : fn.results[i][1] = x)]
   IN [frame |-> [fn |-> fname, pc |-> 1, env |-> env, defers |-> <<>>, mode |-> "run", pval |-> Nil,
-                 recovered |-> FALSE, isDef |-> isDef, boundary |-> boundary, dsts |-> <<>>],
+                 recovered |-> FALSE, isDef |-> isDef, boundary |-> boundary, dsts |-> <<>>, gx |-> FALSE],
       cells |-> [i \in 1..(np + nr) |-> IF i <= np THEN argvals[i] ELSE fn.results[i - np][2]]]
 
 ResultVals(f) == LET fn == Fn(f.fn) IN [i \in 1..Len(fn.results) |-> store[f.env[fn.results[i][1]]]]
@@ -186,6 +186,9 @@ ResultVals(f) == LET fn == Fn(f.fn) IN [i \in 1..Len(fn.results) |-> store[f.env
 ReplaceTop(f) == [frames EXCEPT ![Len(frames)] = f]
 Advance(f) == [f EXCEPT !.pc = @ + 1]
 
+\* a panic raised by a deferred call while the goroutine is exiting (Goexit) and then recovered does not
+\* cancel the exit: the frame goes on running its deferred calls in mode "exit"
+AfterRecover(f) == IF f.gx THEN "exit" ELSE "ret"
 RaiseIn(f, val) == [f EXCEPT !.mode = "panic", !.pval = val, !.recovered = FALSE]
 RtErr(kind) == [t |-> "rterr", kind |-> kind]
 
@@ -323,7 +326,7 @@ StepRun ==
                           ELSE ReplaceTop(Advance(f))
            /\ UNCHANGED <<out, status>>
     [] k = "goexit" ->
-        /\ frames' = ReplaceTop([f EXCEPT !.mode = "exit"])
+        /\ frames' = ReplaceTop([f EXCEPT !.mode = "exit", !.gx = TRUE])
         /\ UNCHANGED <<store, out, status>>
     [] k = "exit" ->      \* ["exit", code]  os.Exit
         /\ status' = IF ins[2] = 0 THEN "exit0" ELSE "exit" \o ToString(ins[2])
@@ -357,7 +360,7 @@ StepUnwind ==
                   THEN \* a deferred call returned to the frame that is unwinding
                        /\ frames' = [SubSeq(frames, 1, n - 1) EXCEPT ![n - 1] =
                                         IF caller.mode = "panic" /\ caller.recovered
-                                          THEN [caller EXCEPT !.mode = "ret", !.pval = Nil] ELSE caller]
+                                          THEN [caller EXCEPT !.mode = AfterRecover(caller), !.pval = Nil] ELSE caller]
                        /\ UNCHANGED <<store, out, status>>
                   ELSE \* ordinary return: store results in the caller's destinations, continue after the call
                        /\ store' = AssignAll(store, [i \in 1..Len(caller.dsts) |-> LvalCell(caller.dsts[i], cenv)],
@@ -367,7 +370,7 @@ StepUnwind ==
                        /\ UNCHANGED <<out, status>>
      ELSE IF f.mode = "panic" THEN
         IF f.recovered THEN      \* recovered by the last deferred call: return normally with the named results
-           /\ frames' = ReplaceTop([f EXCEPT !.mode = "ret", !.pval = Nil])
+           /\ frames' = ReplaceTop([f EXCEPT !.mode = AfterRecover(f), !.pval = Nil])
            /\ UNCHANGED <<store, out, status>>
         ELSE IF n = 1 \/ f.boundary THEN
            /\ status' = "exit2"                                        \* uncaught panic ends the program
@@ -388,7 +391,7 @@ StepUnwind ==
            /\ out' = Append(out, <<"FATAL", "goexit-main">>)
            /\ UNCHANGED <<frames, store>>
         ELSE
-           /\ frames' = [SubSeq(frames, 1, n - 1) EXCEPT ![n - 1] = [@ EXCEPT !.mode = "exit"]]
+           /\ frames' = [SubSeq(frames, 1, n - 1) EXCEPT ![n - 1] = [@ EXCEPT !.mode = "exit", !.gx = TRUE]]
            /\ UNCHANGED <<store, out, status>>
 
 MaxSteps == 3000
@@ -396,7 +399,7 @@ MaxSteps == 3000
 Init ==
   /\ prog \in 1..Len(Programs)
   /\ LET nf == [fn |-> Programs[prog].main, pc |-> 1, env |-> <<>>, defers |-> <<>>, mode |-> "run", pval |-> Nil,
-                recovered |-> FALSE, isDef |-> FALSE, boundary |-> Programs[prog].boundary, dsts |-> <<>>]
+                recovered |-> FALSE, isDef |-> FALSE, boundary |-> Programs[prog].boundary, dsts |-> <<>>, gx |-> FALSE]
      IN frames = <<nf>>
   /\ store = <<>> /\ out = <<>> /\ status = "run" /\ steps = 0
 
